@@ -408,14 +408,18 @@ def r10_3(ctx):
         scenarios.append((f"ERROR({m.name})", "ash", "error_frame_received", (lambda m=m: {"frame": Obj(repo.cls(ASH, "ErrorFrame"), {"version": 2, "reset_code": m}, tag="frame")}), True))
         scenarios.append((f"RSTACK({m.name})", "ash", "rstack_frame_received", (lambda m=m: {"frame": Obj(repo.cls(ASH, "RStackFrame"), {"version": 2, "reset_code": m}, tag="frame")}), True))
     for name, who, meth, args, expect in scenarios:
-        for waiter in (False, True):
-            if waiter and "RSTACK" not in name and "ERROR" not in name:
+        for waiter in (False, True, "done"):
+            if waiter is True and "RSTACK" not in name and "ERROR" not in name:
                 continue
-            px = PX(repo, models=fut_models(set()) + [("*.is_closing", lambda px_, t, a, k, fr: False)], inline=_stack_inline, max_depth=8)
+            if waiter == "done" and not expect:
+                continue
+            # "done": a host-requested reset has just been acknowledged - its future is completed but the done-callback that
+            # clears the attribute has not run yet (same event-loop turn, e.g. RSTACK and ERROR frame in one read)
+            px = PX(repo, models=fut_models({"rf"} if waiter == "done" else set()) + [("*.is_closing", lambda px_, t, a, k, fr: False)], inline=_stack_inline, max_depth=8)
             holder = {}
 
             def entry():
-                ash, gw, ez, tr = _stack(ctx, 2, waiter)
+                ash, gw, ez, tr = _stack(ctx, 2, bool(waiter))
                 holder["ez"] = ez
                 recv = {"ash": ash, "gw": gw}[who]
                 f = recv.cls.method(meth)
@@ -425,7 +429,7 @@ def r10_3(ctx):
             for p in px._run(entry):
                 ctx.paths += 1
                 req = [e for e in p.events if e.kind == "call" and e.callee in ("cb0", "cb1")]
-                key = f"{name}{',reset pending' if waiter else ''}"
+                key = f"{name}{',reset just acknowledged' if waiter == 'done' else (',reset pending' if waiter else '')}"
                 bad = None
                 if p.terminal != "return":
                     bad = f"raises {p.value!r}: the failure is not delivered to the application"
